@@ -70,6 +70,7 @@ fn gen(rng: &mut Rng, _idx: u64, tier: Tier) -> Case {
     let mut args = vec![format!("--delete-after={}", d)];
     if rng.chance(0.35) { args.push("--relaxed".into()); }
     if rng.chance(0.4) { args.push("--use-update-method".into()); }
+    gen::add_neutral_options(rng, &mut args, true, true);
     let n_ac = rng.range(1, 3) as usize;
     let addrs = gen::addresses(rng, n_ac);
     let mut acs: Vec<gen::Ac> = addrs.iter().map(|&a| gen::aircraft(rng, a)).collect();
